@@ -464,19 +464,22 @@ func runC10(c *Ctx, r *Run) {
 			}
 			r.Analysed(c.FuncName(fn))
 			got, op := int64(-1), ""
-			allInstrs(fn, func(in ssa.Instruction) {
-				bo, ok := in.(*ssa.BinOp)
-				if !ok {
-					return
-				}
-				if call, isCall := stripConv(bo.X).(*ssa.Call); isCall {
-					if o := calleeObj(call); o != nil && o.Name() == "TrueLen" {
-						if k, isK := constInt(bo.Y); isK {
-							got, op = k, bo.Op.String()
+			for _, g := range regionOf(fn) {
+				allInstrs(g, func(in ssa.Instruction) {
+					bo, ok := in.(*ssa.BinOp)
+					if !ok {
+						return
+					}
+					if call, isCall := stripConv(bo.X).(*ssa.Call); isCall {
+						if o := calleeObj(call); o != nil && o.Name() == "TrueLen" {
+							// the bound: a constant, or the parameter of a shared helper bound to a constant at this predicate's call
+							if k, isK := constInt(callerVal(bo.Y)); isK {
+								got, op = k, bo.Op.String()
+							}
 						}
 					}
-				}
-			})
+				})
+			}
 			r.Check("PARAM-1", "pkg/math/arith."+n+"|bound", c.Pos(fn.Pos()), got == predicates[n] && op == "<=", fmt.Sprintf("accepts exactly the integers of at most %d bits (TrueLen <= %d)", predicates[n], predicates[n]),
 				fmt.Sprintf("the predicate compares TrueLen %s %d, the reviewed bound is <= %d: responses outside the paper's range are accepted (soundness: e.g. arbitrary factor sizes in zkfac) or honest ones refused", op, got, predicates[n]))
 		}
